@@ -45,3 +45,10 @@ Theorem C03_reads_compose : forall B p n m, wf B -> 0 <= p -> 0 <= n -> 0 <= m -
     read_as_int {| cdata := B; cpos := p |} (n + m) = Ok (v1 * 2 ^ m + v2, {| cdata := B; cpos := p + n + m |}).
 Proof. exact reads_compose. Qed.
 Print Assumptions C03_reads_compose.
+
+(* whole bytes read at a byte boundary are exactly bytes a..a+k-1 of the buffer, unchanged *)
+Theorem C03_bytes_aligned : forall B a k, wf B -> 0 <= a -> 0 <= k -> a + k <= zlen B ->
+  read_as_bytes {| cdata := B; cpos := 8 * a |} (8 * k)
+  = Ok (slice a (a + k) B, {| cdata := B; cpos := 8 * a + 8 * k |}).
+Proof. exact read_bytes_aligned. Qed.
+Print Assumptions C03_bytes_aligned.
